@@ -130,6 +130,8 @@ fn m_subs(prop: &'static str) -> Vec<(MSub, u32, u32, usize)> {
             (msub("C16", "c16-hier-st", MFocus::Hier, None), 40_000, 800_000, 16),
             (msub("C16", "c16-hier-mt", MFocus::Hier, Some(4)), 4000, 80_000, 4),
             (msub("C16", "c16-cyclic-st", MFocus::Cyclic, None), 10_000, 200_000, 16),
+            (msub("C16", "c16-wide-st", MFocus::Wide, None), 150, 3000, 8),
+            (msub("C16", "c16-wide-mt", MFocus::Wide, Some(4)), 150, 3000, 4),
         ],
         "C17" => vec![
             (msub("C17", "c17-sim-st", MFocus::Dag, None), 30_000, 600_000, 16),
@@ -274,6 +276,14 @@ fn run_property(prop: &'static str, tier: &str, seed: u64) -> i32 {
                 let n = ctx.n(400, 8_000);
                 ctx.run(&C10EdgeSub { mt: Some(4) }, n, 4);
             }
+            if prop == "C08" {
+                // an accepted periodic request fires at its occurrences only, also where the
+                // next occurrence is not representable (end of the time range)
+                let n = ctx.n(10_000, 200_000);
+                ctx.run(&C10EdgeSub { mt: None }, n, 16);
+                let n = ctx.n(200, 4_000);
+                ctx.run(&C10EdgeSub { mt: Some(4) }, n, 4);
+            }
             core::set_delay_mode(0, seed);
         }
         "C02" | "C03" | "C04" | "C05" | "C06" | "C14" | "C16" | "C17" => {
@@ -295,6 +305,8 @@ fn run_property(prop: &'static str, tier: &str, seed: u64) -> i32 {
                 ctx.run(&SinkSub, n, 16);
                 let n = ctx.n(3000, 60_000);
                 ctx.run(&SinkThrSub, n, 4);
+                let n = ctx.n(6000, 120_000);
+                ctx.run(&SinkGateSub, n, 4);
             }
         }
         "C11" | "C19" => {
@@ -401,6 +413,9 @@ fn replay(path: &str) -> i32 {
         }
         if sub == "c17-sink-threads" {
             return replay_one(&SinkThrSub, p, case, path);
+        }
+        if sub == "c17-gate-threads" {
+            return replay_one(&SinkGateSub, p, case, path);
         }
         if sub == "c17-sink-api" {
             return replay_one(&SinkSub, p, case, path);
